@@ -1,1 +1,64 @@
-(* placeholder *)
+(* C05 — layer-rule verdicts follow the documented semantics, one unit per layer.
+   [layer_assert_applies g a c] models LayerRule.assert_applies (lowering to a
+   module rule, regex replacement in the mapping, layer lookup by whole dotted
+   components, lenient buckets, same-layer imports dropped from every bucket);
+   [lspec_holds] is the documented semantics (Model/SpecLayer.v).
+   [lwf g um L XL Ms ss os]: um = the layer mapping after regex resolution
+   (unmentioned regex layers contribute nothing), listed modules pairwise
+   unrelated, layer names distinct, L the subject layer with modules XL, Ms the
+   object layers (none of them L, none empty), ss/os the lowered filters. *)
+From Coq Require Import List Bool NArith.
+From PTA Require Import Names Graph Search Rule SpecRule Builder Layer SpecLayer.
+From PTA Require Import NamesProofs SearchProofs RuleProofs AlgebraProofs LayerProofs.
+Import ListNotations.
+
+(* all 12 shapes, any number of object layers, named and regex layers, unmentioned layers *)
+Theorem C05_verdict :
+  forall (comp : Type) (ceqb : comp -> comp -> bool), (forall x y, reflect (x = y) (ceqb x y)) ->
+  forall (rmatch : N -> list comp -> bool) g (a : @larch comp) v imp exc Su Ob ss os L XL Ms,
+  Su <> [] -> Ob <> [] ->
+  convert rmatch g Su = Ok ss -> convert rmatch g Ob = Ok os ->
+  lwf ceqb g (updated_mapping rmatch g (mk_lcfg v imp exc Su Ob) a) L XL Ms ss os ->
+  lis_err (layer_assert_applies ceqb rmatch g a (mk_lcfg v imp exc Su Ob)) = false /\
+  lis_pass (layer_assert_applies ceqb rmatch g a (mk_lcfg v imp exc Su Ob))
+    = lspec_holds ceqb g v imp exc XL (map snd Ms).
+Proof. exact @layer_assert_spec. Qed.
+Print Assumptions C05_verdict.
+
+(* the buckets themselves: empty exactly when the documented semantics hold *)
+Theorem C05_buckets :
+  forall (comp : Type) (ceqb : comp -> comp -> bool), (forall x y, reflect (x = y) (ceqb x y)) ->
+  forall g um L XL Ms ss os, lwf ceqb g um L XL Ms ss os ->
+  forall v imp exc,
+  exists ls, lviolations ceqb g (mk_cfg v imp exc ss os) um imp ss os = Ok ls /\
+             (ls = [] <-> lspec_holds ceqb g v imp exc XL (map snd Ms) = true).
+Proof. exact @layer_violations_spec. Qed.
+Print Assumptions C05_buckets.
+
+(* a module belongs to the layer of the listed module at or above it, by whole dotted components *)
+Theorem C05_layer_of_member :
+  forall (comp : Type) (ceqb : comp -> comp -> bool), (forall x y, reflect (x = y) (ceqb x y)) ->
+  forall (um : umap) X xs x m,
+  pw_unrel ceqb (listed um) -> In (X, xs) um -> In x xs -> prefixb ceqb x m = true ->
+  layer_of ceqb um m = Ok (Some X).
+Proof. exact @layer_of_member. Qed.
+Print Assumptions C05_layer_of_member.
+
+Theorem C05_layer_of_nonmember :
+  forall (comp : Type) (ceqb : comp -> comp -> bool), (forall x y, reflect (x = y) (ceqb x y)) ->
+  forall (um : umap) m,
+  (forall x, In x (listed um) -> prefixb ceqb x m = false) -> layer_of ceqb um m = Ok None.
+Proof. exact @layer_of_nonmember. Qed.
+Print Assumptions C05_layer_of_nonmember.
+
+(* non-vacuity: D7's shape.  A = {r.ba, r.aa}, B = {r.ab}, C given by a regex and not mentioned;
+   the only import is inside A: 'A should access layers except B' fails, 'A should not access B' passes *)
+Open Scope N_scope.
+Example C05_example :
+  let g := {| nodes := [[1]; [1;2]; [1;3]; [1;4]; [1;5]]; imps := [([1;2], [1;3])] |} in
+  let a := [(1, [LName [1;2]; LName [1;3]]); (2, [LName [1;4]]); (3, [LRegex 9])] in
+  let rm := fun (p : N) (n : list N) => match n with [1;5] => true | _ => false end in
+  layer_assert_applies N.eqb rm g a (mk_lcfg Should true true [UNamed [1;2]; UNamed [1;3]] [UNamed [1;4]])
+    = LFail [LLMissingAny 1 [2]; LLMissingAny 1 [2]] /\
+  layer_assert_applies N.eqb rm g a (mk_lcfg ShouldNot true false [UNamed [1;2]; UNamed [1;3]] [UNamed [1;4]]) = LPass.
+Proof. split; vm_compute; reflexivity. Qed.
